@@ -163,7 +163,7 @@ theorem never_panics_run_counterexample :
     (drun (sM, none) evsM).1.panicked = some "allocator exists" ∧
     -- what is wrong with it: a metadata download adopted while the metadata is known
     ¬ drunIdlsSane (sM, none) evsM ∧ ¬ drunAdmissibleI (sM, none) evsM ∧
-    -- and only its last choice is: the history without the last event satisfies everything
+    -- and only that choice is (fifth event): the first four events satisfy everything
     drunSane (sM, none) (evsM.take 4) :=
   ⟨by apply initLike_of <;> decide, by decide, by decide, by decide, by decide, by decide,
    by unfold evsM; simp only [drunIdlsSane]; decide, by decide, by decide⟩
